@@ -308,10 +308,20 @@ virtual_key mk_vk(toks &t)
     return k;
 }
 
+// handles onto one cell of a canvas, taken at one time and used later
+struct held_cell
+{
+    canvas::iterator it;
+    std::unique_ptr<canvas::column_proxy> col;
+    element *ref;
+    coordinate_type row;
+};
+
 struct world
 {
     std::map<long, std::unique_ptr<term_obj>> terms;
     std::map<long, std::unique_ptr<canvas>> canvases;
+    std::map<long, held_cell> held;
     std::map<long, std::pair<long, std::unique_ptr<screen>>> screens;
     std::map<long, std::unique_ptr<detail::parser>> parsers;
 };
@@ -398,6 +408,28 @@ void do_canvas(std::ostream &out, world &w, toks &t)
         return;
     }
     auto &c = *w.canvases.at(id);
+    if (op == "hold")
+    {
+        // an iterator, a column handle and a reference to cell (x,y), kept for later
+        long x = t.num(), y = t.num();
+        held_cell h;
+        h.it = c.begin() + (y * c.size().width_ + x);
+        h.col = std::make_unique<canvas::column_proxy>(c[coordinate_type(x)]);
+        h.ref = &c[coordinate_type(x)][coordinate_type(y)];
+        h.row = coordinate_type(y);
+        w.held[id] = std::move(h);
+        return;
+    }
+    if (op == "heldset")
+    {
+        long k = t.num();
+        auto const e = mk_elem(t);
+        auto &h = w.held.at(id);
+        if (k == 0) *h.it = e;
+        else if (k == 1) (*h.col)[h.row] = e;
+        else *h.ref = e;
+        return;
+    }
     if (op == "fill") { auto const e = mk_elem(t); std::fill(c.begin(), c.end(), e); }
     else if (op == "iterset") { long i = t.num(); auto const e = mk_elem(t); *(c.begin() + i) = e; }
     else if (op == "set") { long x = t.num(), y = t.num(); c[coordinate_type(x)][coordinate_type(y)] = mk_elem(t); }
@@ -657,14 +689,42 @@ int main(int argc, char **argv)
         // real stdout_channel, issued via terminal::write
         // read the whole script first: std::cin is tied to std::cout, so reading
         // between writes would flush the stream and hide ordering problems
-        std::vector<byte_storage> chunks;
+        // Lines starting with '!' are things the HOST program does around the
+        // terminal: leave formatting state on std::cout (!width n, !fill c, !hex,
+        // !left), write to std::cout itself (!host <hex>), flush it (!flush), or end
+        // the process with std::exit while the channel is still alive (!exit).
+        std::vector<std::string> script;
         {
             std::string line;
-            while (std::getline(std::cin, line)) chunks.push_back(unhex(line));
+            while (std::getline(std::cin, line)) script.push_back(line);
         }
         stdout_channel ch;
         terminal term{ch};
-        for (auto const &b : chunks) term.write(bytes(b.data(), b.size()));
+        for (auto const &line : script)
+        {
+            if (!line.empty() && line[0] == '!')
+            {
+                std::istringstream is(line.substr(1));
+                std::string cmd;
+                is >> cmd;
+                if (cmd == "width") { int n = 0; is >> n; std::cout.width(n); }
+                else if (cmd == "fill") { int c = 32; is >> c; std::cout.fill(static_cast<char>(c)); }
+                else if (cmd == "hex") std::cout << std::hex << std::showbase << std::uppercase;
+                else if (cmd == "left") std::cout << std::left;
+                else if (cmd == "flush") std::cout.flush();
+                else if (cmd == "host")
+                {
+                    std::string h;
+                    is >> h;
+                    auto const b = unhex(h);
+                    std::cout.write(reinterpret_cast<char const *>(b.data()), static_cast<std::streamsize>(b.size()));
+                }
+                else if (cmd == "exit") std::exit(0);
+                continue;
+            }
+            auto const b = unhex(line);
+            term.write(bytes(b.data(), b.size()));
+        }
         return 0;
     }
     if (mode == "stdout-ops")
